@@ -45,8 +45,25 @@ int32_t stub_uniform_int(void *dist, void *engine, const int32_t *param) {
 #endif
 
 #if STUB_ON(stub_normal)
+/* libstdc++'s normal_distribution produces variates in pairs (Marsaglia polar method): every other call returns the value saved by
+   the previous call on the SAME distribution object and consumes no engine output. The stub keeps that bookkeeping in the real
+   object (layout below, checked against sizeof) so that a sampler object that outlives a call - and a re-seed - is visible:
+   rng_stale_used is set when a draw returns a variate that was computed before the last re-seed (rng_epoch is advanced by the
+   harness after each call of tfhe_random_generator_setSeed). */
+struct NormalDistLayout { double mean, stddev, saved; bool saved_available; };
+static_assert(sizeof(std::normal_distribution<double>) == sizeof(NormalDistLayout), "libstdc++ normal_distribution layout");
+int32_t rng_epoch = 0, rng_stale_used = 0;
+static int32_t rng_saved_epoch = 0;
 double stub_normal(void *dist, void *engine, const double *param) {
     double mean = param[0], sigma = param[1];
+    NormalDistLayout *nd = (NormalDistLayout *) dist;
+    if (nd->saved_available) {
+        nd->saved_available = false;
+        if (rng_saved_epoch != rng_epoch) rng_stale_used = 1;
+    } else {
+        nd->saved_available = true;
+        rng_saved_epoch = rng_epoch;
+    }
     double e = nondet_f64();
     ASSUME(e >= -rng_R * sigma && e <= rng_R * sigma);
     if (engine != (void *) &generator) rng_bad_engine = 1;
